@@ -424,12 +424,69 @@ func paramCond(v ssa.Value) (p ssa.Value, neg bool, ok bool) {
 		return x, false, true
 	case *ssa.UnOp:
 		if x.Op == token.NOT {
-			if q, ok := x.X.(*ssa.Parameter); ok {
-				return q, true, true
+			q, n, ok := paramCond(x.X)
+			return q, !n, ok
+		}
+		// a local flag ("locked := false ... locked = true ... if locked"): a bool variable that is
+		// only ever assigned constants; its value on a path is what was last stored (tracked as a fact)
+		if x.Op == token.MUL {
+			if cell, ok := x.X.(*ssa.Alloc); ok {
+				if flagCell(cell) {
+					return cell, false, true
+				}
+				// a parameter that a literal captures is kept in a cell that is written once, at entry
+				if sv := ssax.SingleStore(cell); sv != nil {
+					if prm, isP := sv.(*ssa.Parameter); isP {
+						return prm, false, true
+					}
+				}
 			}
 		}
 	}
 	return nil, false, false
+}
+
+// flagCell: a local bool variable all of whose assignments store constants.
+func flagCell(cell *ssa.Alloc) bool {
+	bt, ok := cell.Type().Underlying().(*types.Pointer).Elem().Underlying().(*types.Basic)
+	if !ok || bt.Kind() != types.Bool {
+		return false
+	}
+	var ok2 func(v ssa.Value, depth int) bool
+	ok2 = func(v ssa.Value, depth int) bool {
+		if v.Referrers() == nil || depth > 2 {
+			return false
+		}
+		for _, r := range *v.Referrers() {
+			switch x := r.(type) {
+			case *ssa.Store:
+				if x.Addr != v {
+					return false
+				}
+				if _, isC := ssax.ConstBool(x.Val); !isC {
+					return false
+				}
+			case *ssa.UnOp, *ssa.DebugRef:
+			case *ssa.MakeClosure:
+				// captured: the literal may read it, and may assign constants too
+				lit, _ := x.Fn.(*ssa.Function)
+				if lit == nil {
+					return false
+				}
+				for i, b := range x.Bindings {
+					if b == v && i < len(lit.FreeVars) {
+						if !ok2(lit.FreeVars[i], depth+1) {
+							return false
+						}
+					}
+				}
+			default:
+				return false
+			}
+		}
+		return true
+	}
+	return ok2(cell, 0)
 }
 
 func release(st *state, l Lock) {
@@ -703,6 +760,22 @@ func (r *Result) explore(f *ssa.Function) {
 				}
 			}
 			switch x := in.(type) {
+			case *ssa.Alloc:
+				if flagCell(x) {
+					if st.facts == nil {
+						st.facts = map[ssa.Value]bool{}
+					}
+					st.facts[x] = false
+				}
+			case *ssa.Store:
+				if cell, ok := x.Addr.(*ssa.Alloc); ok && flagCell(cell) {
+					if cb, isC := ssax.ConstBool(x.Val); isC {
+						if st.facts == nil {
+							st.facts = map[ssa.Value]bool{}
+						}
+						st.facts[cell] = cb
+					}
+				}
 			case *ssa.Defer:
 				if kind, l, ok := AsLockOp(x.Common()); ok && (kind == "Unlock" || kind == "RUnlock") {
 					ll := l
@@ -726,6 +799,8 @@ func (r *Result) explore(f *ssa.Function) {
 					d := st.defers[i]
 					if d.unlock != nil {
 						release(&st, *d.unlock)
+					} else if r.inlineDeferred(f, d.call, &st) {
+						// a deferred literal whose branches are decided by flags known on this path
 					} else {
 						r.callEdges(f, d.call, st, r.w.At(d.call)+" (deferred)")
 						r.applyCall(&st, d.call, nil)
@@ -1362,4 +1437,166 @@ func (r *Result) HeldOnReturnOf(f *ssa.Function) []Lock {
 		return sm.held
 	}
 	return nil
+}
+
+// inlineDeferred runs a deferred function literal on the current state when every branch in it
+// tests a flag variable of the enclosing function whose value is known on this path
+// ("defer func() { if locked { mu.Unlock() } }()"). Reports false when the literal is not of that
+// kind (the caller then falls back to the literal's summary).
+func (r *Result) inlineDeferred(f *ssa.Function, d *ssa.Defer, st *state) bool {
+	mc, ok := d.Call.Value.(*ssa.MakeClosure)
+	if !ok || len(d.Call.Args) != 0 {
+		return false
+	}
+	lit, _ := mc.Fn.(*ssa.Function)
+	if lit == nil || len(lit.Blocks) == 0 {
+		return false
+	}
+	binding := func(fv *ssa.FreeVar) ssa.Value {
+		for i, q := range lit.FreeVars {
+			if q == fv && i < len(mc.Bindings) {
+				return mc.Bindings[i]
+			}
+		}
+		return nil
+	}
+	condFact := func(v ssa.Value) (bool, bool) {
+		neg := false
+		for i := 0; i < 4; i++ {
+			u, ok := v.(*ssa.UnOp)
+			if !ok {
+				return false, false
+			}
+			if u.Op == token.NOT {
+				neg, v = !neg, u.X
+				continue
+			}
+			if u.Op != token.MUL {
+				return false, false
+			}
+			fv, ok := u.X.(*ssa.FreeVar)
+			if !ok {
+				return false, false
+			}
+			cell := binding(fv)
+			if cell == nil {
+				return false, false
+			}
+			known, has := st.facts[cell]
+			if !has {
+				// a parameter of the enclosing function that the literal captures lives in a cell
+				if al, isAl := cell.(*ssa.Alloc); isAl {
+					if sv := ssax.SingleStore(al); sv != nil {
+						known, has = st.facts[sv]
+					}
+				}
+			}
+			if !has {
+				return false, false
+			}
+			return known != neg, true
+		}
+		return false, false
+	}
+	// run every path of the literal; branches on known flags (or on parameters whose value is
+	// known on this path) are decided, others are taken both ways. The literal is accepted when all
+	// its paths end in the same lock state.
+	type frame struct {
+		b     *ssa.BasicBlock
+		st    state
+		local []deferred
+		steps int
+	}
+	var finals []state
+	stack := []frame{{lit.Blocks[0], st.clone(), nil, 0}}
+	for len(stack) > 0 {
+		fr := stack[len(stack)-1]
+		stack = stack[:len(stack)-1]
+		if fr.steps > 64 || len(finals) > 16 {
+			return false
+		}
+		work, local := fr.st, fr.local
+		done := false
+		for _, in := range fr.b.Instrs {
+			switch x := in.(type) {
+			case *ssa.Defer:
+				if kind, l, ok := AsLockOp(x.Common()); ok && (kind == "Unlock" || kind == "RUnlock") {
+					ll := l
+					local = append(local, deferred{unlock: &ll})
+				} else {
+					local = append(local, deferred{call: x})
+				}
+			case *ssa.RunDefers:
+				for i := len(local) - 1; i >= 0; i-- {
+					if local[i].unlock != nil {
+						releaseClass(&work, local[i].unlock.Class, local[i].unlock.Mode)
+					} else {
+						r.callEdges(f, local[i].call, work, r.w.At(local[i].call)+" (deferred)")
+						r.applyCall(&work, local[i].call, nil)
+					}
+				}
+				local = nil
+			case *ssa.Call:
+				if kind, l, ok := AsLockOp(x.Common()); ok {
+					switch kind {
+					case "Unlock", "RUnlock":
+						releaseClass(&work, l.Class, l.Mode)
+					default:
+						return false
+					}
+					continue
+				}
+				r.callEdges(f, x, work, r.w.At(x))
+				r.applyCall(&work, x, nil)
+			case *ssa.Store:
+				if fv, ok := x.Addr.(*ssa.FreeVar); ok {
+					if cell := binding(fv); cell != nil {
+						if cb, isC := ssax.ConstBool(x.Val); isC {
+							if work.facts == nil {
+								work.facts = map[ssa.Value]bool{}
+							}
+							work.facts[cell] = cb
+						}
+					}
+				}
+			case *ssa.Return:
+				finals = append(finals, work)
+				done = true
+			case *ssa.Go, *ssa.Panic:
+				return false
+			}
+			if done {
+				break
+			}
+		}
+		if done {
+			continue
+		}
+		switch last := fr.b.Instrs[len(fr.b.Instrs)-1].(type) {
+		case *ssa.If:
+			if tv, ok := condFact(last.Cond); ok {
+				s := 1
+				if tv {
+					s = 0
+				}
+				stack = append(stack, frame{fr.b.Succs[s], work, local, fr.steps + 1})
+			} else {
+				stack = append(stack, frame{fr.b.Succs[0], work.clone(), append([]deferred(nil), local...), fr.steps + 1}, frame{fr.b.Succs[1], work.clone(), append([]deferred(nil), local...), fr.steps + 1})
+			}
+		case *ssa.Jump:
+			stack = append(stack, frame{fr.b.Succs[0], work, local, fr.steps + 1})
+		default:
+			return false
+		}
+	}
+	if len(finals) == 0 {
+		return false
+	}
+	for _, fs := range finals[1:] {
+		if fs.key() != finals[0].key() {
+			return false
+		}
+	}
+	*st = finals[0]
+	return true
 }
